@@ -294,19 +294,21 @@ class _FileModifyProxy:
             if not self.dry_run:
                 os.symlink(link_target, dst)
         else:
+            # The paths may contain braces, so the message must not be
+            # formatted a second time.
             msg = "Copy file '{}' -> '{}'.".format(
                 _safe_relpath(src), _safe_relpath(dst)
             )
             if self.permissions and self.times:
-                logger.more(msg.format(" (preserving: permissions, times)"))
+                logger.more(msg + " (preserving: permissions, times)")
                 self._copy2(src, dst)
             elif self.permissions:
-                logger.more(msg.format(" (preserving: permissions)"))
+                logger.more(msg + " (preserving: permissions)")
                 self._copy_p(src, dst)
             elif self.times:
                 raise ValueError("Cannot copy timestamps without permissions.")
             else:
-                logger.more(msg.format(""))
+                logger.more(msg)
                 self._copy(src, dst)
             if self.owner or self.group or self.stats is not None:
                 stat = os.stat(src)
